@@ -414,7 +414,7 @@ def independent_wiring(ctx, rep, cl, only=None):
     paths = [x for x in A.paths(f_fa).paths if x.feasible() and x.kind != "raise"]
     # 1. independent wiring: truth table field-set vs option conditions
     option_of = STAGE_OPTIONS
-    params = {("param", x) for x in f_fa.params}
+    params = {("param", x) for x in f_fa.params[1:]}  # the options (not self)
     for field, own in option_of.items():
         if only is not None and field not in only:
             continue
@@ -445,9 +445,11 @@ def independent_wiring(ctx, rep, cl, only=None):
                     continue
                 # decisions taken on both paths that differ (a decision missing on one path — early return — is a wildcard)
                 diff = [k for k in set(a[1]) & set(b[1]) if a[1][k][0] != b[1][k][0]]
-                if len(diff) == 1:
-                    k = diff[0]
-                    relevant |= set((a[1].get(k) or b[1].get(k))[1])
+                # one differing decision, or several that are all about the same option (a field assigned from a parameter and the
+                # parameter itself are tested in two places: the decisions are correlated, the option they read is what decides)
+                rootsets = {(a[1].get(k) or b[1].get(k))[1] for k in diff}
+                if len(diff) >= 1 and len(rootsets) == 1:
+                    relevant |= set(next(iter(rootsets)))
         rep.ob(cl + ".independent-wiring", field, relevant <= own and seen_set >= 1 and seen_none >= 1,
                "whether self.%s is created is decided by %s; expected only its own option(s) %s (set on %d paths, None on %d)" % (field, sorted(x[1] for x in relevant), sorted(x[1] for x in own), seen_set, seen_none), W(f_fa),
                key="%s.independent-wiring|%s" % (cl, field))
